@@ -155,4 +155,16 @@ fn run(ctx: &mut Ctx) {
         }
         gate_case(ctx, &name, params, qubits, n);
     }
+
+    // ---- 5. beyond the property's range (the lifting theorems are for all n): a few placements into 6 and 7 qubits
+    let mut rng = ctx.rng(17);
+    let plan: &[(u64, usize)] = if quick { &[(6, 8)] } else { &[(6, 80), (7, 12)] };
+    for &(n, count) in plan {
+        for _ in 0..count {
+            let (name, k, np) = *rng.pick(&STANDARD_GATES);
+            let params: Vec<Expression> = (0..np).map(|i| real(angle(&mut rng, 12 + i))).collect();
+            let qs = random_placement(&mut rng, k, n);
+            gate_case(ctx, name, params, fixed(&qs), n);
+        }
+    }
 }
